@@ -24,6 +24,7 @@ import (
 	"runtime/pprof"
 	"sort"
 	"strings"
+	"sync/atomic"
 	"time"
 
 	"gopkg.in/src-d/go-git.v4/plumbing"
@@ -39,10 +40,10 @@ import (
 const maxCopies = 6
 
 // hangTimeout bounds one operation or one snapshot: code that shares an arena between copies can loop forever.
-const hangTimeout = 10 * time.Second
+var hangTimeout = 10 * time.Second // raised while the large cases run
 
 // memExceeded is closed when the heap grows beyond memLimit (an endless loop that keeps appending).
-const memLimit = 300 << 20
+var memLimit uint64 = 300 << 20 // raised while the large cases run
 
 var memExceeded = make(chan struct{})
 
@@ -52,7 +53,7 @@ func init() {
 		for {
 			time.Sleep(10 * time.Millisecond)
 			runtime.ReadMemStats(&ms)
-			if ms.HeapAlloc > memLimit {
+			if ms.HeapAlloc > atomic.LoadUint64(&memLimit) {
 				close(memExceeded)
 				return
 			}
@@ -1586,6 +1587,13 @@ func hibStreams(c *Config) {
 
 // scaleStreams: the large cases (kinds bds-*).
 func scaleStreams(c *Config) {
+	atomic.StoreUint64(&memLimit, 6<<30)
+	hangTimeout = 300 * time.Second
+	defer func() {
+		runtime.GC()
+		atomic.StoreUint64(&memLimit, 300<<20)
+		hangTimeout = 10 * time.Second
+	}()
 	for i, shape := range []string{"rnd", "asc", "desc"} {
 		scaleBigFile(c, 1000+7+i, i%2 == 0, shape)
 		scaleBigFile(c, 10000+1+i, i%2 == 1, shape)
